@@ -16,6 +16,7 @@ import RotoV.Lemmas.ScopeExport
 import RotoV.Lemmas.ScopeWitness
 import RotoV.Lemmas.ScopeImports
 import RotoV.Lemmas.ScopeTermination
+import RotoV.Lemmas.ScopeGetFunction
 
 namespace RotoV.C13
 open RotoV.Scope
@@ -447,6 +448,33 @@ example : ∃ path s, PathTo witnessMods 3 path ∧
 example : (match checkModuleTree Graph.new witnessMods with
     | .ok out => fullName out.g ⟨4, 6⟩ | _ => .err .notDefined) =
     .ok [.id PKG, .id 4, .id 3, .id 6] := by decide
+
+/-
+  Full statement of "every function is retrievable from Rust by its module
+  path": for every runtime, `get_function("<path>.<f>")` returns the function
+  `f` of module `pkg.<path>`.  Proved below for runtimes *without registered
+  modules* (`get_function_spec_partial`); missing: the table of a runtime with
+  registered modules also holds their functions, whose names are proved distinct
+  from script functions only through the correspondence run (a registered module
+  named `pkg` makes `declare_modules` fail, any other name gives another prefix).
+-/
+
+/-- **T5 (retrieval).** For a script checked against a runtime without
+    registered modules, `get_function("path'.f")` — the lookup of `pkg.path'.f` in
+    the table of compiled functions of the final graph — returns the function `f`
+    declared in the module whose path is `pkg.path'`: the right one, whatever
+    same-named functions other modules declare. -/
+theorem get_function_spec_partial (ms : List Module) (out : Outcome)
+    (h : checkModuleTree Graph.new ms = .ok out)
+    (i : Nat) (m : Module) (path' : List Name) (f tag : Nat) (body : Block)
+    (hm : ms[i]? = some m) (hp : PathTo ms i (PKG :: path')) (hf : Item.fn f tag body ∈ m.items) :
+    getFunction out.g (path' ++ [f]) = some tag :=
+  getFunction_spec h hm hp hf
+
+-- `get_function("bb.aa.ff")` on the witness tree is #102, `get_function("aa.ff")` is #101
+example : (match checkModuleTree Graph.new witnessMods with
+    | .ok out => (getFunction out.g [4, 3, 6], getFunction out.g [3, 6], getFunction out.g [4, 6])
+    | _ => (none, none, none)) = (some 102, some 101, none) := by decide
 
 /-! ## T6 — discovery -/
 
